@@ -6,7 +6,10 @@ Theorems: lean/SaVerif/Props/C11.lean
 Check:    generated SELECTs over joined single-row tables with colliding column names, labels,
           expressions, repeated columns, text columns, label styles, subquery / CTE / union
           wrappers, label_length truncation, textual selects and raw SQL, executed on SQLite
-          with a distinct value per expression;
+          with a distinct value per expression; plus sequences of statements built from ONE shared
+          pool of expression objects (anonymous expressions differing only in bound literals, labels,
+          columns of anonymous aliases, bound literals, objects selected twice) at permuted positions /
+          subsets, executed through one compiled cache (cache hits re-target the cached metadata);
           (1) direct oracle: every probe key (selected objects, result keys, labels, legacy
               table_column keys, attribute access, garbage) must return the value of a position
               it denotes, raise when it denotes positions with different values, and succeed
@@ -643,13 +646,205 @@ def history_cases(ctx, corr):
         finally:
             eng.dispose()
 
+# ------------------------------------------------------------------ shared expression pool, one cache
+POOL_KS = [1000, 2000, 3000, 4000, 5000, 6000, 7000, 8000, 9000]
+
+
+def pval(rowid, col):
+    return rowid * 100 + {"id": 0, "a": 1, "b": 2}[col]
+
+
+def gen_pool_scenario(rng):
+    """one template (FROM chain + select list over abstract slots) and a sequence of instantiations:
+    the SAME expression objects (anonymous expressions differing only in their bound literal, labels
+    of them, columns of anonymous aliases, bound literals, a column / an object selected twice) placed at
+    permuted positions / in subsets, anonymous aliases and literals exchanged between slots"""
+    nfrom = rng.choice([1, 1, 2, 2, 3])
+    chain, left = [], {"anon": 3, "named": 1, "base": 1}
+    for _ in range(nfrom):
+        c = rng.choice([k for k in ("anon", "anon", "anon", "named", "base") if left[k] > 0])
+        left[c] -= 1
+        chain.append(c)
+    n = rng.choice([2, 2, 3, 3, 4, 5])
+    elems = []
+    for i in range(n):
+        r = rng.random()
+        e = {"f": rng.randrange(nfrom), "c": rng.choice(["a", "a", "b"]), "l": rng.randrange(4)}
+        if r < 0.30:
+            e["kind"] = "bp"
+        elif r < 0.45:
+            e["kind"] = "col"
+        elif r < 0.58:
+            e["kind"] = "bplab"
+            e["name"] = rng.choice(["x", "y", "a"])
+        elif r < 0.66:
+            e["kind"] = "collab"
+            e["name"] = rng.choice(["x", "y", "a"])
+        elif r < 0.76:
+            e["kind"] = "fn"
+        elif r < 0.84:
+            e["kind"] = "lit"
+        elif r < 0.90:
+            e["kind"] = "sq"
+        elif elems:
+            e = {"kind": "rep", "of": rng.randrange(len(elems))}
+        else:
+            e["kind"] = "bp"
+        elems.append(e)
+    ks = rng.sample(POOL_KS, 4)
+    anon_slots = [j for j, c in enumerate(chain) if c == "anon"]
+    steps = [{"order": list(range(n)), "anon": list(range(len(anon_slots))), "ks": list(range(4))}]
+    for _ in range(rng.choice([2, 3, 4])):
+        prev = steps[0] if rng.random() < 0.6 else steps[-1]
+        st = {"order": list(prev["order"]), "anon": list(prev["anon"]), "ks": list(prev["ks"])}
+        how = rng.choice(["order", "order", "subset", "anon", "ks", "order+anon", "order+ks", "same"])
+        if "order" in how:
+            rng.shuffle(st["order"])
+            if st["order"] == prev["order"]:
+                st["order"].reverse()
+        if how == "subset":
+            st["order"] = [rng.randrange(n) for _ in range(rng.randint(1, n))]
+        if "anon" in how and len(anon_slots) > 1:
+            st["anon"] = st["anon"][1:] + st["anon"][:1]
+        if "ks" in how:
+            rng.shuffle(st["ks"])
+        steps.append(st)
+    if rng.random() < 0.5:
+        steps.append(dict(steps[0]))
+    return {"family": "pool", "style": rng.choice(["dis", "dis", "dis", "none", "tq"]), "chain": chain,
+            "elems": elems, "ks": ks, "steps": steps}
+
+
+def run_pool_scenario(ctx, scen, corr=None):
+    import sqlalchemy as sa
+
+    styles = {"none": sa.LABEL_STYLE_NONE, "dis": sa.LABEL_STYLE_DISAMBIGUATE_ONLY, "tq": sa.LABEL_STYLE_TABLENAME_PLUS_COL}
+    eng = sa.create_engine("sqlite://")
+    md = sa.MetaData()
+    P = sa.Table("p", md, sa.Column("id", sa.Integer, primary_key=True), sa.Column("a", sa.Integer), sa.Column("b", sa.Integer))
+    anon = [P.alias(), P.alias(), P.alias()]
+    named = P.alias("n1")
+    pool = {}
+
+    def obj(key, mk):
+        if key not in pool:
+            pool[key] = mk()
+        return pool[key]
+
+    try:
+        with eng.connect() as conn:
+            md.create_all(conn)
+            conn.execute(P.insert(), [{"id": i, "a": pval(i, "a"), "b": pval(i, "b")} for i in (1, 2, 3, 4)])
+            chain = scen["chain"]
+            anon_slots = [j for j, c in enumerate(chain) if c == "anon"]
+            for step, st in enumerate(scen["steps"]):
+                froms = []
+                for j, c in enumerate(chain):
+                    if c == "anon":
+                        froms.append(anon[st["anon"][anon_slots.index(j)]])
+                    else:
+                        froms.append(named if c == "named" else P)
+                ks = [scen["ks"][i] for i in st["ks"]]
+                telems, tvals = [], []
+                for e in scen["elems"]:
+                    if e["kind"] == "rep":
+                        telems.append(telems[e["of"]])
+                        tvals.append(tvals[e["of"]])
+                        continue
+                    j, c, k = e["f"], e["c"], ks[e["l"]]
+                    F = froms[j]
+                    fid = ("f", chain[j], st["anon"][anon_slots.index(j)] if chain[j] == "anon" else 0)
+                    col = F.c[c]
+                    v = pval(1 + j, c)
+                    kind = e["kind"]
+                    if kind == "col":
+                        telems.append(col)
+                        tvals.append(v)
+                    elif kind == "collab":
+                        telems.append(obj(("collab", fid, c, e["name"]), lambda: col.label(e["name"])))
+                        tvals.append(v)
+                    elif kind == "bp":
+                        telems.append(obj(("bp", fid, c, k), lambda: col + k))
+                        tvals.append(v + k)
+                    elif kind == "bplab":
+                        telems.append(obj(("bplab", fid, c, k, e["name"]), lambda: (col + k).label(e["name"])))
+                        tvals.append(v + k)
+                    elif kind == "fn":
+                        telems.append(obj(("fn", fid, c, k), lambda: sa.func.coalesce(sa.null(), col + k)))
+                        tvals.append(v + k)
+                    elif kind == "lit":
+                        telems.append(obj(("lit", k), lambda: sa.literal(k)))
+                        tvals.append(k)
+                    elif kind == "sq":
+                        telems.append(obj(("sq", k), lambda: sa.select(sa.literal(k) + 1).scalar_subquery()))
+                        tvals.append(k + 1)
+                    else:
+                        raise ValueError(kind)
+                elems = [telems[i] for i in st["order"]]
+                vals = [tvals[i] for i in st["order"]]
+                stmt = sa.select(*elems).select_from(froms[0])
+                for j in range(1, len(froms)):
+                    stmt = stmt.join(froms[j], froms[j].c.id == froms[j - 1].c.id + 1)
+                stmt = stmt.where(froms[0].c.id == 1).set_label_style(styles[scen["style"]])
+                here = dict(scen, step=step)
+                ctx.case("pool:%s:%d" % (json.dumps(scen, sort_keys=True), step), nontrivial=len(elems) >= 2)
+                with warnings.catch_warnings():
+                    warnings.simplefilter("ignore")
+                    try:
+                        ob = observe(conn, stmt)
+                    except Exception as ex:  # noqa: BLE001
+                        ctx.count("pool-rejected=%s" % type(ex).__name__)
+                        continue
+                ctx.count("pool-cache-hit=%s adapted=%s" % (ob["cache_hit"], ob["adapted"] is not None))
+                row = ob["row"]
+                sql = str(stmt).replace("\n", " ")[:300]
+                if row is None or list(row) != vals:
+                    ctx.violation("c11-oracle:pool-positional", here, "execution #%d: row %r, expected %r; %s" % (step, row, vals, sql))
+                    continue
+                seen = []
+                for e in elems:
+                    if any(e is o for o in seen):
+                        continue
+                    seen.append(e)
+                    den = [q for q in range(len(elems)) if elems[q] is e]
+                    dvals = sorted({vals[q] for q in den})
+                    out, v = lookup_row(row, e)
+                    desc = "execution #%d (cache hit %s) of %s: row._mapping[<%s at positions %r>]" % (
+                        step, ob["cache_hit"], sql, type(e).__name__, den)
+                    if out == "V" and v not in dvals:
+                        key = "c11-oracle:pool-wrong-column:object"
+                        if shared_without_scan(ob, e):
+                            key = "key-shared-by-two-positions-without-duplicate-scan-last-wins"
+                        ctx.violation(key, here, "%s -> %r, the value selected there is %r; row %r" % (desc, v, dvals, tuple(row)))
+                    elif out.startswith("X"):
+                        ctx.violation("c11-oracle:unexpected-exception", here, "%s -> %s" % (desc, out))
+                    elif out != "V" and (len(den) == 1 or scen["style"] != "none"):
+                        ctx.violation("c11-oracle:pool-object-failed", here, "%s -> %s, expected %r" % (desc, out, dvals))
+                if corr is not None:
+                    line, impl = model_request(ob)
+                    if line is not None:
+                        corr[0].append(here)
+                        corr[1].append(impl)
+                        corr[2].append(line)
+    finally:
+        eng.dispose()
+
+
+def pool_cases(ctx, corr):
+    n = 150 if ctx.tier == "quick" else 1500
+    for _ in range(n):
+        run_pool_scenario(ctx, gen_pool_scenario(ctx.rng), corr)
+
 
 def run(ctx, deep=False):
     ctx.rule = (
         "random SELECT lists of 1..6 elements (table columns of 3 joined single-row tables with colliding names, labels "
         "from a colliding pool, labelled/unlabelled expressions, literal columns, text() columns, repeated objects) x "
         "label styles x subquery/CTE/union wrappers x label_length in {None,8,12,20}, plus textual selects (positional, "
-        "ad-hoc, by-name) and raw SQL; non-trivial = at least 2 result columns; distinct = distinct case description")
+        "ad-hoc, by-name) and raw SQL; cached name-matched statements re-executed after the physical column order "
+        "changed; sequences of 3..6 statements over one shared pool of expression objects (permuted positions, subsets, "
+        "exchanged anonymous aliases / bound literals) through one engine cache, oracle = the value SELECTed at that "
+        "object's position in THIS statement; non-trivial = at least 2 result columns; distinct = distinct case description")
     ctx.trusted.append("SQLite cursor.description names; compiler-populated _result_columns taken from the real compiler per statement")
     ctx.assumptions.append("rows hold a distinct value per expression, so a wrong column is always visible")
     env = Env()
@@ -663,6 +858,7 @@ def run(ctx, deep=False):
         for _ in range(n):
             check_one(ctx, env, gen_case(ctx.rng), corr)
         history_cases(ctx, corr)
+        pool_cases(ctx, corr)
         if ctx.driver_ok() and corr[0]:
             ctx.correspond("corr/c11:keymap-vs-Model.RowKeys", corr[0], corr[1], ctx.driver(corr[2]))
     finally:
@@ -674,6 +870,11 @@ def search(ctx, broken):
     env = Env()
     try:
         for d in ctx.disagreements:
+            if d["case"].get("family") == "pool":
+                run_pool_scenario(ctx, {k: v for k, v in d["case"].items() if k != "step"})
+                continue
+            if d["case"].get("family") == "history":
+                continue
             ob = execute(env, d["case"])
             if ob and "error" not in ob:
                 for key, detail in oracle(d["case"], ob):
@@ -692,6 +893,13 @@ def replay(ctx, obj):
         hits = [v for v in sub.violations if v["key"] == obj.get("key")]
         print("replay C11 history key=%s -> %d failing executions; first: %s" % (obj.get("key"), len(hits), hits[0]["detail"] if hits else None))
         return bool(hits)
+    if case.get("family") == "pool":
+        sub = type(ctx)(ctx.pid, "thorough", obj.get("seed", 0), ctx.level)
+        scen = {k: v for k, v in case.items() if k != "step"}
+        run_pool_scenario(sub, scen)
+        for v in sub.violations:
+            print("replay C11 pool key=%s: %s" % (v["key"], v["detail"]))
+        return bool(sub.violations)
     env = Env()
     try:
         ob = execute(env, case)
